@@ -163,7 +163,7 @@ def words_scope(res, pid, rng, tier):
             fails.append({"kind": "a secret value that is a reserved word was replaced", "line": want, "output": o})
     # ... also after a $9$ string whose plaintext is that reserved word was seen earlier in the run
     from .jun_checks import ref_encrypt
-    for w in ("ip", "trap", "MyReservedPw", rng.choice(["snmp", "community", "interface"])):
+    for w in ("ip", "trap", "MyReservedPw", rng.choice(["vlan", "mtu", "interface"])):
         hist = ['secret "%s"\n' % ref_encrypt(w, rng.choice("QB7i")), "username bob password %s\n" % w, "snmp-server community %s ro\n" % w]
         outs, _ = run_lines(cfgp, hist)
         res.evaluations += 3
